@@ -230,6 +230,25 @@ CHECKS = {
              "trsm and the level-1 routines other than dot have no theorem (correspondence + monitors). gemm for complex<float> and "
              "trsm with both operands conjugated do not compile. Known findings are keyed on listed (routine, call site, kind) "
              "pairs and can only cover cases the proved criterion does not certify. Coq 8.16.1 kernel; Print Assumptions recorded."),
+    "C20": dict(
+        text="Theorems (Coq, all ranks/extents/index tuples/operation sequences/iterator traces): C20_asserts_silent_on_valid (a "
+             "zero-based array taken through any sequence of in-domain view operations makes every transcribed BOOST_MULTI_ASSERT/"
+             "assert true and every divisor non-zero), C20_asserts_silent_rebased_partial (same with index bases, reindexed, "
+             "blocked; excluded and refuted: diagonal() on re-based views), C20_iterator_/elements_/assign_silent; "
+             "C20_asserts_fire_on_oob, C20_index_guard, C20_guarded_access_in_bounds (chained brackets abort exactly when an index is "
+             "outside its extension, at that level, otherwise the address lies inside the root); C20_assign_fire (every overload "
+             "class of view assignment, move-assignment, swap and array_ref assignment between views of different extents aborts "
+             "before the copy loop), C20_elements_assign_fire, C20_unstopped_assign_fits; C20_ndebug_invariant (results do not "
+             "depend on the assertion switch). Tie: the unchanged C01/C02/C05/C07/C19 harness sources built with assertions, with "
+             "-DNDEBUG and with -DBOOST_MULTI_ASSERT_DISABLE run the generated valid programs (zero-based and re-based) without "
+             "abort and with identical output; death tests in forked children (ASan in the thorough tier) compare abort/no-abort "
+             "and the aborting level with the model; fixed probes for the known tensions.",
+        design_ref="5/C20", technique="Coq proof (assertion predicates beside every modelled operation; invariants by induction over "
+                                      "operation lists; guarded-execution semantics with a configuration switch) + three-configuration "
+                                      "differential of valid programs + forked death tests compared with the extracted model",
+        note="assertion messages are recognised by glibc's assert() format; harness roots have non-null base pointers (null-base "
+             "assertion: probe + known finding); lifecycle histories are not run in three configurations; Coq 8.16.1 kernel, Print "
+             "Assumptions in the evidence; three open known findings (re-based reextent assertion, null-base slice, re-based diagonal)"),
 }
 
 NOT_YET = {
